@@ -1747,6 +1747,164 @@ func genC16(p *Pkg) (map[string]string, error) {
 		b.WriteString("]\n\n")
 	}
 
+	// ---- names-map discipline: where `extensible` comes from, who calls the map writers, and the text of the
+	// three small functions the Names model transcribes
+	type pair struct{ a, b string }
+	var extSites, bindCalls, symAcc []pair
+	for _, fn := range fileNames {
+		for _, d := range p.Files[fn].Decls {
+			fd, ok := d.(*ast.FuncDecl)
+			if !ok || fd.Body == nil {
+				continue
+			}
+			name := fd.Name.Name
+			if _, typ, _ := recvInfo(fd); typ != "" {
+				name = typ + "." + name
+			}
+			ast.Inspect(fd.Body, func(n ast.Node) bool {
+				switch x := n.(type) {
+				case *ast.AssignStmt:
+					for _, l := range x.Lhs {
+						if sel, ok := l.(*ast.SelectorExpr); ok && sel.Sel.Name == "desc" {
+							symAcc = append(symAcc, pair{name, "write " + g.str(l)})
+						}
+					}
+				case *ast.CallExpr:
+					if sel, ok := x.Fun.(*ast.SelectorExpr); ok {
+						switch sel.Sel.Name {
+						case "createBinding", "createLexBinding", "deleteBinding":
+							bindCalls = append(bindCalls, pair{name, g.str(x.Fun)})
+						}
+					}
+				case *ast.CompositeLit:
+					if id, ok := x.Type.(*ast.Ident); ok && (id.Name == "enterFunc" || id.Name == "enterFunc1" || id.Name == "enterFuncBody") {
+						// every construction of a function-entry instruction that carries a names map: where does `extensible` come from?
+						ext, names := "<unset>", false
+						for _, el := range x.Elts {
+							if kv, ok := el.(*ast.KeyValueExpr); ok {
+								if k, ok := kv.Key.(*ast.Ident); ok && k.Name == "extensible" {
+									ext = g.str(kv.Value)
+								}
+								if k, ok := kv.Key.(*ast.Ident); ok && k.Name == "names" {
+									names = true
+								}
+							}
+						}
+						_ = names
+						extSites = append(extSites, pair{name + ":" + id.Name, ext})
+					}
+					if id, ok := x.Type.(*ast.Ident); ok && id.Name == "Symbol" {
+						for _, el := range x.Elts {
+							if kv, ok := el.(*ast.KeyValueExpr); ok {
+								symAcc = append(symAcc, pair{name, "init " + g.str(kv.Key)})
+							} else {
+								symAcc = append(symAcc, pair{name, "init positional"})
+							}
+						}
+					}
+				}
+				return true
+			})
+		}
+	}
+	wp := func(name string, l []pair) {
+		fmt.Fprintf(&b, "def %s : List (String × String) := [", name)
+		for i, x := range l {
+			if i > 0 {
+				b.WriteString(", ")
+			}
+			fmt.Fprintf(&b, "(%s, %s)", LeanString(x.a), LeanString(x.b))
+		}
+		b.WriteString("]\n\n")
+	}
+	if len(extSites) == 0 || len(bindCalls) == 0 {
+		return nil, fmt.Errorf("no `extensible:` site / no createBinding call found")
+	}
+	wp("extensibleSites", extSites)
+	wp("bindingCalls", bindCalls)
+	wp("symbolWrites", symAcc)
+	body := func(recv, fn string) ([]string, error) {
+		var fd *ast.FuncDecl
+		if recv == "" {
+			fd = p.FuncDecl("", fn)
+		} else {
+			fd = g.methods[recv][fn]
+		}
+		if fd == nil || fd.Body == nil {
+			return nil, fmt.Errorf("%s.%s not found", recv, fn)
+		}
+		var out []string
+		for _, st := range fd.Body.List {
+			out = append(out, g.str(st))
+		}
+		return out, nil
+	}
+	for _, it := range [][3]string{{"bindVars", "exec", "body_bindVars_exec"}, {"stash", "createBinding", "body_createBinding"},
+		{"stash", "deleteBinding", "body_deleteBinding"}, {"stash", "isVariable", "body_isVariable"}, {"copyStash", "exec", "body_copyStash_exec"}} {
+		l, err := body(it[0], it[1])
+		if err != nil {
+			return nil, err
+		}
+		fmt.Fprintf(&b, "def %s : List String := [", it[2])
+		for i, x := range l {
+			if i > 0 {
+				b.WriteString(", ")
+			}
+			b.WriteString(LeanString(x))
+		}
+		b.WriteString("]\n\n")
+	}
+	// the deletable test of deleteVar.exec
+	{
+		fd := g.methods["deleteVar"]["exec"]
+		if fd == nil {
+			return nil, fmt.Errorf("deleteVar.exec not found")
+		}
+		var conds []string
+		ast.Inspect(fd.Body, func(n ast.Node) bool {
+			if is, ok := n.(*ast.IfStmt); ok {
+				has := false
+				ast.Inspect(is.Body, func(m ast.Node) bool {
+					if c, ok := m.(*ast.CallExpr); ok {
+						if sel, ok := c.Fun.(*ast.SelectorExpr); ok && sel.Sel.Name == "deleteBinding" {
+							has = true
+						}
+					}
+					return true
+				})
+				if has {
+					conds = append(conds, g.str(is.Cond))
+				}
+			}
+			return true
+		})
+		fmt.Fprintf(&b, "def deleteVarGuards : List String := [")
+		for i, x := range conds {
+			if i > 0 {
+				b.WriteString(", ")
+			}
+			b.WriteString(LeanString(x))
+		}
+		b.WriteString("]\n\n")
+	}
+	// Symbol struct
+	syt, ok := g.types["Symbol"].(*ast.StructType)
+	if !ok {
+		return nil, fmt.Errorf("type Symbol is not a struct")
+	}
+	b.WriteString("def symbolFields : List (String × String) := [")
+	first = true
+	for _, f := range syt.Fields.List {
+		for _, n := range f.Names {
+			if !first {
+				b.WriteString(", ")
+			}
+			first = false
+			fmt.Fprintf(&b, "(%s, %s)", LeanString(n.Name), LeanString(g.str(f.Type)))
+		}
+	}
+	b.WriteString("]\n\n")
+
 	b.WriteString("end GojaModel.C16.Generated\n")
 	return map[string]string{"C16_Share.lean": b.String()}, nil
 }
